@@ -91,6 +91,15 @@ DICTS = ["d_str_int", "d_int_str", "d_lit", "any"]
 CALLBACKS = ["g_int", "g_str", "g_obj", "g_float", "g_bool", "g_int_str", "any"]
 POOLS = {"s": SCALARS, "l": LISTS, "d": DICTS, "c": CALLBACKS}
 
+# arguments that mostly fit a signature's declaration (used for 70% of the draws, so that the
+# bounded / constrained signatures are not almost always rejected)
+FRIENDLY = {
+    "f_b": ["k1", "kTrue", "k1_5", "t_int", "t_float", "t_bool", "any"],
+    "f_a": ["t_A", "t_B", "kAinst", "kBinst", "any"],
+    "f_c": ["k1", "kTrue", "ka", "t_int", "t_str", "t_bool", "any"],
+    "f_d": ["k1", "k1_5", "ka", "t_float", "t_str", "t_A", "t_B", "kAinst", "t_int", "any"],
+}
+
 _vals = {}
 
 
